@@ -80,6 +80,8 @@ def param_sets(name, sig, rng, how_many, small=False):
     """default parameters first, then `how_many` non-default sets drawn from the signature"""
     defaults = {k: p.default for k, p in sig.parameters.items()
                 if k not in ('candles', 'sequential') and p.default is not inspect.Parameter.empty}
+    # parameters annotated float whose default happens to be written as an int (mult: float = 0)
+    float_annotated = {k for k, p in sig.parameters.items() if p.annotation is float or p.annotation == 'float'}
     out = [dict()]
     periods = [2, 3, 5, 8, 14, 21, 30] if small else [2, 3, 5, 8, 14, 21, 34, 60]
 
@@ -93,6 +95,19 @@ def param_sets(name, sig, rng, how_many, small=False):
             kw = {k: v for k, d in defaults.items() if is_period(k.lower(), d)}
             if kw:
                 out.append(kw)
+        # deterministic combination sets: every float-valued parameter away from its default together with each
+        # non-default deviation type (defects that need a parameter COMBINATION, e.g. devtype=1 with mult != 0)
+        for v in (1, 2):
+            kw = {}
+            for k, d in defaults.items():
+                if k.lower() == 'devtype':
+                    kw[k] = v
+                elif isinstance(d, bool):
+                    continue
+                elif isinstance(d, float) or (isinstance(d, int) and k in float_annotated):
+                    kw[k] = float(d) * (1.5 if v == 1 else 0.5) if d else float(v)
+            if kw and any(not isinstance(x, int) or k.lower() != 'devtype' for k, x in kw.items()):
+                out.append(kw)
     for _ in range(how_many):
         kw = {}
         for k, d in defaults.items():
@@ -105,6 +120,8 @@ def param_sets(name, sig, rng, how_many, small=False):
                 kw[k] = rng.choice([0, 1, 2])
             elif isinstance(d, bool):
                 kw[k] = rng.choice([True, False])
+            elif isinstance(d, int) and k in float_annotated:
+                kw[k] = float(d) * rng.choice([0.5, 1.0, 1.5, 2.0]) if d else rng.choice([0.0, 0.5, 1.0, 2.0])
             elif isinstance(d, int):
                 if any(x in lk for x in ('period', 'length', 'window', 'range', 'lookback', 'bars')) or lk in ('p', 'q', 'r', 's', 'u', 'k', 'd', 'order'):
                     if any(x in lk for x in ('fast', 'short', 'min_')):
@@ -116,7 +133,7 @@ def param_sets(name, sig, rng, how_many, small=False):
                 else:
                     kw[k] = d
             elif isinstance(d, float):
-                kw[k] = d * rng.choice([0.5, 1.0, 1.5]) if d else rng.choice([0.0, 0.5])
+                kw[k] = d * rng.choice([0.5, 1.0, 1.5]) if d else rng.choice([0.0, 0.5, 1.0])
             elif isinstance(d, str) and lk == 'direction':
                 kw[k] = rng.choice(['long', 'short'])
             else:
